@@ -321,3 +321,80 @@ def param_equivalence(cls_short):
                 if nums != list(range(1, n + 1)):
                     return f"{label} under {qc.__name__}: placeholders numbered {nums}: {sql!r}"
     return None
+
+
+def _builder_qc(cls_short):
+    for qc in QUERY_CLASSES:
+        b = type(qc._builder())
+        if (b.__module__ + "." + b.__qualname__).replace("pypika_tortoise.", "") == cls_short:
+            return qc
+    return None
+
+
+def _rowlimit_ok(dialect_cls, tail, has_l, has_o):
+    """reference row-limiting grammar on a rendered tail with values 7 (limit) and 3 (offset)"""
+    import re
+    d = dialect_cls.split(".")[-1]
+    if d == "MSSQLQueryBuilder":
+        pat = r"^( ORDER BY \(SELECT 0\))? OFFSET (3|0) ROWS( FETCH NEXT 7 ROWS ONLY)?$" if (has_l or has_o) else r"^$"
+    elif d == "OracleQueryBuilder":
+        pat = r"^( OFFSET 3 ROWS)?( FETCH NEXT 7 ROWS ONLY)?$"
+    elif d == "PostgreSQLQueryBuilder":
+        pat = r"^( LIMIT 7)?( OFFSET 3)?$"
+    else:
+        pat = r"^( LIMIT 7( OFFSET 3)?)?$"
+    return re.match(pat, tail) is not None
+
+
+def pagination(cls_short, has_l, has_o, has_ord):
+    from . import Table
+    qc = _builder_qc(cls_short)
+    if qc is None:
+        return None
+    t = Table("t")
+    q = qc.from_(t).select(t.a)
+    if has_ord:
+        q = q.orderby(t.a)
+    if has_l:
+        q = q.limit(7)
+    if has_o:
+        q = q.offset(3)
+    sql = str(q)
+    base = str(qc.from_(t).select(t.a).orderby(t.a)) if has_ord else str(qc.from_(t).select(t.a))
+    tail = sql[len(base):]
+    if not _rowlimit_ok(cls_short, tail, has_l, has_o):
+        return f"{qc.__name__} limit={'7' if has_l else None} offset={'3' if has_o else None} renders {sql!r}: the tail {tail!r} is not the dialect's row-limiting clause"
+    return None
+
+
+def pagination_setop(base_short, has_l, has_o):
+    from . import Table
+    qc = _builder_qc(base_short)
+    if qc is None:
+        return None
+    t = Table("t")
+    s = qc.from_(t).select(t.a).union(qc.from_(t).select(t.b))
+    base = str(s)
+    if has_l:
+        s = s.limit(7)
+    if has_o:
+        s = s.offset(3)
+    tail = str(s)[len(base):]
+    if not _rowlimit_ok(base_short, tail, has_l, has_o):
+        return f"{qc.__name__} union with limit={'7' if has_l else None} offset={'3' if has_o else None}: tail {tail!r} is not the dialect's row-limiting clause"
+    return None
+
+
+def pagination_setter(cls_short, method):
+    from . import Table
+    qc = _builder_qc(cls_short)
+    if qc is None:
+        return None
+    t = Table("t")
+    q = qc.from_(t).select(t.a).limit(10).offset(5)
+    if method == "slice":
+        q2 = q[0:3]
+        sql = str(q2)
+        if "5" in sql.split("FROM")[1]:
+            return f"{qc.__name__} q.limit(10).offset(5)[0:3] renders {sql!r}: the slice start 0 did not replace the offset"
+    return None
